@@ -10,7 +10,7 @@ ASSUMPTIONS = ["start states are compact; blocks satisfy C02"]
 
 def judge(ctx, r):
     for i, s in enumerate(r.steps):
-        if s["real"] != "ok" or s["op"][0] == "reopen":
+        if s["real"] != "ok" or s["op"][0] in C.IDLE:
             continue
         rep = C.replay_of(r, i)
         if not s["fc"]["compact"]:
@@ -64,7 +64,7 @@ def replay(path):
             print("history on", rp.get("start_desc"))
             continue
         r = C.replay_history(rp)
-        bad = [i for i, s in enumerate(r.steps) if s["real"] == "ok" and s["op"][0] != "reopen" and not s["fc"]["compact"]]
+        bad = [i for i, s in enumerate(r.steps) if s["real"] == "ok" and s["op"][0] not in C.IDLE and not s["fc"]["compact"]]
         print(r.desc, [s["op"][0] + ":" + s["real"] for s in r.steps], "->", "compact throughout" if not bad else f"NOT compact after step {bad[0]}")
         rc |= 1 if bad else 0
     return rc
